@@ -24,7 +24,10 @@ Wrap == {"inst", "fwd", "obj", "group"}
 Kinds == {<<w, i>> : w \in Wrap, i \in Inst}
 Markers == {"Send", "Sync"}
 
-(* Rust's rules for the typed handle *)
+(* Rust's rules for the typed handle = the rules of the std handle it is built from (Box<T>, Box<[T]>,  *)
+(* Arc<T>).  The library's own `unsafe impl Send/Sync` for CBox, CSliceBox, CArc, CArcSome must not claim *)
+(* more than this (wrapper level of C09: "a smart pointer can be sent only if the instance handle it was *)
+(* built from could be sent"); the probe compares the observed markers of the typed pointers with it.    *)
 BaseHas(i, p, m) ==
   CASE i = "ref"       -> PSync(p)                               \* &T: Send iff T: Sync; Sync iff T: Sync
     [] i = "mut"       -> IF m = "Send" THEN PSend(p) ELSE PSync(p)
